@@ -27,6 +27,7 @@ ASSUMPTIONS = common.BASE_ASSUMPTIONS + [
 ]
 REAL_VS_STUB = common.REAL_VS_STUB
 QUICK_RUNS = 18000
+GIANT_RUN_EVERY = 4001  # one wire in 4001 is > 65535 tiny frames of one kind and a tail frame of another protocol
 LONG_RUN_EVERY = 157  # one wire in 157 starts with >= 1100 tiny frames of one or two kinds
 O_SLICE_UNITS = 120
 EXPECTED_PROBES = {t: ["nested_wires", "filtered_frame_contains_foreign_preamble", "all_accepted_wires", "corrupted_wires", "socket_runs"] for t in ("quick", "thorough")}
@@ -50,6 +51,9 @@ def generate(seed: int, tier: str = "quick") -> dict:
     if seed % LONG_RUN_EVERY == LONG_RUN_EVERY - 1:
         run, _style = common.long_run_frames(r_dev, pre)
         frames = [dict(f, kind="garbage") if f["kind"] == "noise" else f for f in run] + frames[:3]
+    giant = seed % GIANT_RUN_EVERY == GIANT_RUN_EVERY - 1
+    if giant:
+        frames, _style = common.giant_run_frames(r_dev, pre)
     if r_cfg.random() < 0.3:
         cfg["decoy"] = True
         cfg["decoy_protfilter"] = r_cfg.choice((0, 1, 2, 4, 3, 5, 6, 7))
@@ -57,8 +61,11 @@ def generate(seed: int, tier: str = "quick") -> dict:
         cfg["decoy_parsing"] = r_cfg.choice((True, False))
     spans = sched.spans_of(frames)
     wire_len = spans[-1][1] if spans else 0
-    tr = common.draw_transport(r_sch, wire_len, spans, kinds=("file", "file", "socket"))
-    if tr["kind"] == "socket":
+    tr = common.draw_transport(r_sch, wire_len, spans, kinds=("file", "file", "socket")) if not giant else {"kind": "file"}
+    if giant:
+        tr = r_sch.choice(({"kind": "file"}, {"kind": "bytesio"}, {"kind": "socket", "segments": [[0.0, wire_len]], "timeout": 2.0, "end": "close"}))
+        cfg["bufsize"] = 4096
+    elif tr["kind"] == "socket":
         cfg["bufsize"] = r_sch.choice(sched.BUFSIZES)
     elif r_sch.random() < 0.12:
         tr = {"kind": "bytesio"}
